@@ -636,12 +636,101 @@ def legal_decl(w):
     return text
 
 
+# ---------------------------------------------------------------------------- pipeline level: every enumerator is exported
+PRES_SCOPES = ["lib", "ns", "nested", "class", "nsclass"]
+PRES_KINDS = ["enum", "enum class", "enum struct"]
+PRES_MEMBERS = [("LOW", 3), ("MID", 4), ("HIGH", 6)]          # enum ... { LOW = 3, MID, HIGH = LOW * 2 }
+
+
+def presence_library(scope, kind, with_function):
+    en = {"decl": "%s Level { LOW = 3, MID, HIGH = LOW * 2 }" % kind}
+    fn = [{"decl": "int probe(int n)"}] if with_function else []
+    if scope == "lib":
+        decls = [en] + fn
+    elif scope == "ns":
+        decls = [{"decl": "namespace outer", "declarations": [en] + fn}]
+    elif scope == "nested":
+        decls = [{"decl": "namespace outer", "declarations": [{"decl": "namespace inner", "declarations": [en] + fn}]}]
+    elif scope == "class":
+        decls = [{"decl": "class Cls", "declarations": [{"decl": "Cls()"}, en]}] + fn
+    else:
+        decls = [{"decl": "namespace outer", "declarations": [{"decl": "class Cls", "declarations": [{"decl": "Cls()"}, en]}] + fn}]
+    return {"library": "pres", "cxx_header": "pres.hpp", "options": {"wrap_python": False, "wrap_lua": False}, "declarations": decls}
+
+
+def presence_expected(scope, kind):
+    """Names per the documented templates: C  {C_prefix}{C_name_scope}{enum_member_name}, Fortran
+    {F_name_scope}{enum_member_lower}; C_name_scope joins every enclosing namespace / class (and the enumeration's own name
+    when it is scoped) with '_'; F_name_scope does the same without namespaces (each namespace is a module of its own)."""
+    cscope = {"lib": "", "ns": "outer_", "nested": "outer_inner_", "class": "Cls_", "nsclass": "outer_Cls_"}[scope]
+    fscope = "cls_" if scope in ("class", "nsclass") else ""
+    if kind != "enum":
+        cscope += "Level_"
+        fscope += "level_"
+    return [("PRE_" + cscope + n, fscope + n.lower(), v) for (n, v) in PRES_MEMBERS]
+
+
+def presence_verdict(scope, kind, with_function):
+    from gen import pipeline
+    from harness import cfg_common as cc
+    try:
+        r = pipeline.run(presence_library(scope, kind, with_function))
+    except Exception as ex:
+        return "generation fails: %s: %s" % (type(ex).__name__, str(ex)[:150])
+    texts = cc.file_texts(r)
+    ctext = "\n".join(t for f, t in texts.items() if f.endswith(".h"))
+    ftext = "\n".join(t for f, t in texts.items() if f.endswith(".f"))
+    for cname, fname, val in presence_expected(scope, kind):
+        if len(re.findall(r"(?m)^\s*%s\b" % re.escape(cname), ctext)) != 1:
+            return "the C header does not define the enumerator %s exactly once" % cname
+        m = re.findall(r"(?im)^\s*integer\(C_INT\), parameter :: %s = (.*)$" % re.escape(fname), ftext)
+        if len(m) != 1:
+            return "the Fortran module does not define the parameter %s exactly once (%d definitions)" % (fname, len(m))
+    return None
+
+
+class PresenceHarness(object):
+    """Engine-chosen structure: scope kind x plain/scoped x with or without a function beside the enumeration."""
+
+    def __init__(self, twin=False):
+        self.twin = twin
+
+    def run(self, e):
+        zs, zk, zf = z3.Int("pres_scope"), z3.Int("pres_kind"), z3.Bool("pres_function")
+        e.assume(z3.And(zs >= 0, zs < len(PRES_SCOPES), zk >= 0, zk < len(PRES_KINDS)))
+        self.scope = PRES_SCOPES[e.choose(zs)]
+        self.kind = PRES_KINDS[e.choose(zk)]
+        self.fn = bool(e.branch(zf))
+        return presence_verdict(self.scope, self.kind, self.fn)
+
+    def witness(self, what):
+        return {"kernel": "presence", "scope": self.scope, "kind": self.kind, "with_function": self.fn, "what": what,
+                "decl": "%s Level { LOW = 3, MID, HIGH = LOW * 2 }" % self.kind}
+
+    def judge(self, e, kind, value):
+        if kind == "exc":
+            return {"cls": "presence", "violation": self.witness("exception %s: %s" % (type(value).__name__, str(value)[:150])), "vkey": "presence:exc"}
+        what = value
+        if self.twin and not what:
+            what = "reachability twin"
+        if what:
+            return {"cls": "presence", "violation": self.witness(what), "vkey": "presence:" + re.sub(r"\w*(low|mid|high)\w*", "N", what, flags=re.I)[:60]}
+        return {"cls": "presence/ok", "sample": self.witness(None)}
+
+
+def make_presence(**kw):
+    return PresenceHarness(**kw)
+
+
 def main():
     tier, seed, rp = checklib.tier_and_seed()
     if rp:
         with open(rp) as f:
             w = json.load(f)
-        verdict, out = confirm(w)
+        if w.get("kernel") == "presence":
+            verdict, out = presence_verdict(w["scope"], w["kind"], w["with_function"]), None
+        else:
+            verdict, out = confirm(w)
         print("declaration:", w["decl"], "scope:", w["scope"])
         print("emitted:", out)
         print("verdict:", verdict or "property holds on this input")
@@ -669,6 +758,11 @@ def main():
     with multiprocessing.get_context("fork").Pool(min(16, os.cpu_count() or 1)) as pool:
         for a in pool.imap_unordered(run_chunk, tasks, chunksize=1):
             total.merge(a)
+    pres = driver.explore(("harness.C11", "make_presence", {}), nworkers=1)
+    total.merge(pres)
+    ptw = driver.explore(("harness.C11", "make_presence", dict(twin=True)), nworkers=1)
+    if not (ptw.stats.paths > 0 and ptw.nviol == ptw.stats.paths):
+        rep.inconc("presence kernel reachability twin failed")
     twin = run_chunk(([(["L"], None, ["E0", "+", "L"])], "lib", None, True))
     twin_ok = twin.stats.paths > 0 and twin.nviol == twin.stats.paths and not twin.inconclusive
     if not twin_ok:
@@ -679,8 +773,11 @@ def main():
     confirmed = 0
     for i, v in enumerate(total.violations):
         v = dict(v)
-        v["decl"] = legal_decl(v)
-        verdict, _ = confirm(v)
+        if v.get("kernel") == "presence":
+            verdict = presence_verdict(v["scope"], v["kind"], v["with_function"])
+        else:
+            v["decl"] = legal_decl(v)
+            verdict, _ = confirm(v)
         if verdict is None:
             rep.inconc("counterexample did not reproduce concretely: %r" % (v,))
             continue
